@@ -59,9 +59,31 @@ def _ascii_prefix_count(prog, fn, o):
     src = tw.kids[0].strip()
     while src.k == "call" and src.a["name"] in ("take", "by_ref", "peekable") and src.kids:
         src = src.kids[0].strip()       # `take(n)` only shortens the run
-    if not (src.k == "call" and src.a["name"] == "chars" and src.kids):
+    # (`bytes()`: a byte that satisfies an ASCII-only predicate is an ASCII character of its own, so the count is the same)
+    if not (src.k == "call" and src.a["name"] in ("chars", "bytes") and src.kids):
         return None
     return src.kids[0]
+
+
+def _ascii_prefix_pred(prog, fn, o):
+    """name of the ASCII-only predicate of such a count (`is_ascii_digit`), written as a path or as a closure calling it"""
+    s = prim.expand_single_def_vars(fn, o).strip()
+    if not (s.k == "call" and s.a["name"] == "count" and s.kids):
+        return None
+    tw = s.kids[0].strip()
+    if not (tw.k == "call" and tw.a["name"] == "take_while" and len(tw.kids) == 2):
+        return None
+    pred = tw.kids[1].strip()
+    for n in _ASCII_PRED:
+        if ("::" + n) in pred.fmt() or ("::%s" % n) in str(pred.a):
+            return n
+    if pred.k == "agg" and str(pred.a).startswith("closure:"):
+        cf = prog.fns.get(str(pred.a).split(":", 1)[1])
+        if cf is not None:
+            r = prim.origin_of_local(cf, 0).strip()
+            if r.k == "call" and r.a["name"] in _ASCII_PRED and not [c for c in r.call_nodes() if c is not r and c.a["name"] not in ("deref",)]:
+                return r.a["name"]
+    return None
 
 
 def _prefix_count_unwrap(prog, site):
